@@ -19,6 +19,18 @@ def list_packages(project, root, filename):
     return sorted(r for r in project.list_packages(root))
 
 
+def ident_tail(text):
+    # type: (str) -> str
+    """The longest run of identifier characters at the end of text
+
+    \\w is not the same set: combining marks and the middle dot may continue
+    an identifier without being alphanumeric."""
+    i = len(text)
+    while i > 0 and ('a' + text[i - 1]).isidentifier():
+        i -= 1
+    return text[i:]
+
+
 def starts_statement(lines, lineno):
     # type: (list[str], int) -> bool
     """Is a physical line the beginning of a statement
@@ -58,7 +70,7 @@ def assist(project, source, position, filename=None, debug=False):
     if marked_import:
         head, tail = marked_import
         # the marked name runs up to the next dot, the match ends at the cursor
-        prefix = re.search(r'\w*$', line).group()
+        prefix = ident_tail(line)
         if tail is None:
             head, tail = split_pkg(head)
             return prefix, list_packages(project, head, filename)
@@ -72,7 +84,7 @@ def assist(project, source, position, filename=None, debug=False):
 
     scope = extract_scope(source, project)
 
-    prefix = re.search(r'\w*$', line).group()
+    prefix = ident_tail(line)
     attr = get_marked_atribute(source.tree)
     names = {}
     if attr:
